@@ -47,47 +47,87 @@ func TestVerif_C34(t *testing.T) {
 		sel = regexp.MustCompile(s)
 	}
 	ran, failed := []string{}, []string{}
+	running := map[string]bool{}
 	var mu sync.Mutex
-	tests := append([]struct {
-		name string
-		fn   func(*testing.T)
-	}{}, c34Tests...)
-	tests = append(tests, struct {
-		name string
-		fn   func(*testing.T)
-	}{c34StressName, func(t *testing.T) { c34Stress(t, res) }})
+	finish := func(hung []string) {
+		for _, n := range ran {
+			res.Case(n)
+			res.Hit("test")
+		}
+		res.mu.Lock()
+		res.Extra["ran"] = ran
+		res.Extra["failed"] = failed
+		res.Extra["hung"] = hung
+		res.Extra["gate"] = zzvlk.GateStats()
+		res.Traces = len(ran) - len(hung)
+		res.mu.Unlock()
+	}
+	// A workload that does not terminate must not take the check with it: at the deadline a lock cycle that really
+	// happened is recorded as such (exit status 97); otherwise the log and the result are written, the tests still
+	// running are reported as hung, and the process ends with status 98. (time.AfterFunc: no goroutine exists until it
+	// fires, so the repository's goroutine-leak test is not disturbed.)
+	dl := 240
+	if s := os.Getenv("VLK_DEADLINE_S"); s != "" {
+		if n, err := strconv.Atoi(s); err == nil {
+			dl = n
+		}
+	}
+	alarm := time.AfterFunc(time.Duration(dl)*time.Second, func() {
+		zzvlk.CheckStuck()
+		mu.Lock()
+		var hung []string
+		for n, r := range running {
+			if r {
+				hung = append(hung, n)
+			}
+		}
+		finish(hung)
+		mu.Unlock()
+		zzvlk.Mark("end", "deadline")
+		zzvlk.Flush()
+		res.Write(t)
+		fmt.Fprintf(os.Stderr, "c34: workload deadline (%ds) reached, still running: %v\n", dl, hung)
+		os.Exit(98)
+	})
+	defer alarm.Stop()
+	runOne := func(t *testing.T, name string, fn func(*testing.T)) {
+		ran = append(ran, name)
+		t.Run(name, func(t *testing.T) {
+			// the mark carries the goroutine of the test: the objects it creates identify its part of the log
+			zzvlk.Mark("test", name)
+			mu.Lock()
+			running[name] = true
+			mu.Unlock()
+			defer func() {
+				mu.Lock()
+				running[name] = false
+				if t.Failed() {
+					failed = append(failed, name)
+				}
+				mu.Unlock()
+			}()
+			fn(t)
+		})
+	}
 	// the group returns when every (parallel) test of it has finished
 	t.Run("e2e", func(t *testing.T) {
-		for _, tc := range tests {
+		for _, tc := range c34Tests {
 			if sel != nil && !sel.MatchString(tc.name) {
 				continue
 			}
-			tc := tc
-			ran = append(ran, tc.name)
-			t.Run(tc.name, func(t *testing.T) {
-				// the mark carries the goroutine of the test: the objects it creates identify its part of the log
-				zzvlk.Mark("test", tc.name)
-				defer func() {
-					if t.Failed() {
-						mu.Lock()
-						failed = append(failed, tc.name)
-						mu.Unlock()
-					}
-				}()
-				tc.fn(t)
-			})
+			runOne(t, tc.name, tc.fn)
 		}
 	})
+	// the stress workload last: its nodes are left running (see c34Stress) and must not fill the log while other tests run
+	if sel == nil || sel.MatchString(c34StressName) {
+		runOne(t, c34StressName, func(t *testing.T) { c34Stress(t, res) })
+	}
+	alarm.Stop()
 	zzvlk.Mark("end", "")
 	zzvlk.Flush()
-	for _, n := range ran {
-		res.Case(n)
-		res.Hit("test")
-	}
-	res.Extra["ran"] = ran
-	res.Extra["failed"] = failed
-	res.Extra["gate"] = zzvlk.GateStats()
-	res.Traces = len(ran)
+	mu.Lock()
+	finish(nil)
+	mu.Unlock()
 }
 
 func c34WaitTimeout(wg *sync.WaitGroup, d time.Duration) bool {
@@ -154,6 +194,7 @@ func c34Stress(t *testing.T, res *vResult) {
 	netStop := make(chan struct{}) // stops the network (after the actors and the nodes)
 	var wg, netWg sync.WaitGroup
 	var pumped, dropped, sent, acts atomic.Int64
+	var quiesced atomic.Bool
 	blocked := func(a, b *c34Node) bool { // A and C never reach each other directly: relay through L
 		return (a.name == "A" && b.name == "C") || (a.name == "C" && b.name == "A")
 	}
@@ -174,7 +215,7 @@ func c34Stress(t *testing.T, res *vResult) {
 					}
 					// a network never blocks its senders: a datagram whose receiver is not keeping up is dropped
 					dst := byUDP[p.To]
-					if dst == nil || blocked(n, dst) {
+					if dst == nil || blocked(n, dst) || quiesced.Load() {
 						p.Release()
 						continue
 					}
@@ -332,16 +373,19 @@ func c34Stress(t *testing.T, res *vResult) {
 	// the actors first (the network still delivers, so nothing they call can block on a full queue), then the nodes,
 	// then the network
 	close(stop)
-	if !c34WaitTimeout(&wg, 30*time.Second) {
+	if !c34WaitTimeout(&wg, 20*time.Second) {
+		zzvlk.CheckStuck() // a lock cycle that really happened is recorded as such (and ends the process)
 		buf := make([]byte, 1<<20)
 		buf = buf[:runtime.Stack(buf, true)]
-		t.Errorf("c34 stress: the actors did not finish within 30s of the stop signal (a goroutine is blocked inside nebula):\n%s", buf)
+		t.Errorf("c34 stress: the actors did not finish within 20s of the stop signal (a goroutine is blocked inside nebula):\n%s", buf)
 	}
-	for _, n := range nodes {
-		n.ctrl.Stop()
-	}
-	close(netStop)
-	c34WaitTimeout(&netWg, 10*time.Second)
+	// The nodes are NOT stopped: the tester tun panics ("send on closed channel") when a node is closed while a datagram
+	// it has already taken off its queue is still on its way to the tun, and the harness cannot know when that is over.
+	// The network is cut instead (every datagram is dropped from now on, the tun side is still drained), which leaves
+	// five idle nodes behind until the test binary ends. Control.Stop under load is exercised by the scripted tests.
+	quiesced.Store(true)
+	_ = netStop
+	_ = &netWg
 	res.mu.Lock()
 	res.Extra["stress"] = map[string]int64{"pumped": pumped.Load(), "dropped": dropped.Load(), "tun_sent": sent.Load(), "actions": acts.Load(), "ms": dur.Milliseconds()}
 	res.mu.Unlock()
